@@ -87,7 +87,11 @@ pub struct Rendered {
 pub fn geometry(scene: &Scene) -> (Vec<Tri<usize>>, Vec<Vtx>) {
     let mut faces = vec![]; let mut verts = vec![];
     for (i, t) in scene.tris.iter().enumerate() {
-        faces.push(Tri([3 * i, 3 * i + 1, 3 * i + 2]));
+        // (corners of one triangle that are bit-identical in position and attribute share one vertex: the face then has a
+        // repeated index, as the stitching triangles of a strip do)
+        let same = |a: usize, b: usize| t.v[a].map(f32::to_bits) == t.v[b].map(f32::to_bits) && t.a[a].to_bits() == t.a[b].to_bits();
+        let idx = [3 * i, if same(1, 0) { 3 * i } else { 3 * i + 1 }, if same(2, 0) { 3 * i } else if same(2, 1) { 3 * i + 1 } else { 3 * i + 2 }];
+        faces.push(Tri(idx));
         for k in 0..3 { verts.push(vertex(ClipVec::from(t.v[k]), t.a[k])); }
     }
     (faces, verts)
@@ -106,9 +110,11 @@ fn through_door<T: Target, V: Carrier>(door: Door, scene: &Scene, faces: &[Tri<u
                 let mut scratch: Buf2<u32> = Buf2::new((scene.bw, scene.bh));
                 let sctx = Context { face_cull: None, ..Context::default() };
                 let warm = WrapShader::<V> { inner: AttrShader::new(Discard::Never), _v: std::marker::PhantomData };
-                let mut b1 = b.shader(warm).target(&mut scratch).context(&sctx);
+                // ... and with other geometry: a single face over six scratch vertices, replaced afterwards
+                let wv: Vec<Vtx> = (0..6).map(|k| vertex(ClipVec::from([[-0.5f32, -0.5, 0.0, 1.0], [0.5, -0.5, 0.0, 1.0], [0.0, 0.5, 0.0, 1.0]][k % 3]), 0.5)).collect();
+                let mut b1 = b.faces([Tri([3usize, 4, 5])]).vertices(&wv[..]).shader(warm).target(&mut scratch).context(&sctx);
                 b1.render();
-                b1.shader(sh.clone()).target(target).context(ctx).render()
+                b1.faces(faces).vertices(verts).shader(sh.clone()).target(target).context(ctx).render()
             } else { b.shader(sh.clone()).target(target).context(ctx).render() }
         }
         Door::Camera => {
